@@ -156,3 +156,10 @@ SIBLINGS = [
     ("hellinger", "squared_chord", lambda a, b, o: a ** 2 - 2 * b),
     ("euclidean", "squared_euclidean", lambda a, b, o: a ** 2 - b),
 ]
+
+
+# Domain on which the *closed form* (and its symmetry / zero-self consequences) is compared when it is wider
+# than the domain of the axiom table: Hassanat's published definition is piecewise in the sign of min(x_i, y_i)
+# and covers all reals; the definedness / finiteness obligations stay on the table's domain (huge negative
+# coordinates absorb the constant 1 and are not claimed).
+FORM_DOMAIN = {"hassanat": "R"}
